@@ -498,20 +498,24 @@ example : findIdx (slotHit 129540 90 255 false) [{ free := false, tp := true, pg
 
 /-! ## library sender and library receiver over a loss-free in-order channel -/
 
-/-- **End to end (RTS/CTS), partial.** Node A (one device `da`) hands a transport-flagged message of 9..223 bytes for the
-address of node B (one device `db`) to `SendMsg`. Both nodes are quiet, A has no transfer pending, B has a free receive slot
-and may hold the message (PGN known or filter off). The channel `wire` carries every frame, in order, into the other node's
-receive queue. A schedule is a list of delays `(dB, dA)`: in each `round` B polls (`ParseMessages`) `dB` ms after its
-previous poll, then A polls `dA` ms after its previous poll - any `dB`, any `dA < 100` (first one `< 50`: the sender's
-timeouts), the two clocks need not agree. Then `SendMsg` succeeds and after at most 33 rounds of ANY such schedule B's
-handler has been called exactly once - with the PGN, A's address as source, B's address as destination, the length and exactly
-the payload bytes - A's transfer is over (nothing pending, `StartSendTPMessage` is free again) and no frame is left in flight.
-Polls in between with nothing to receive change nothing (`poll_idle`), so schedules with extra polls reduce to these.
+/-- **End to end (RTS/CTS), partial.** Node A hands a transport-flagged message of 9..223 bytes for the address of node B to
+`SendMsg` on its first device `da`; B's first device `db` owns that address. Each node may have any number of further devices
+(`Lead`: they have nothing pending and no device is in an address claim). Both nodes are quiet, A has no transfer pending, B has a
+free receive slot and may hold the message (PGN known or filter off), no information retry is waiting (`InfoIdle`). The channel
+`wire` carries every frame, in order, into the other node's receive queue. A schedule is a list of delays `(dB, dA)`: in each
+`round` B polls (`ParseMessages`) `dB` ms after its previous poll, then A polls `dA` ms after its previous poll - any `dB`,
+any `dA < 100` (first one `< 50`: the sender's timeouts), the two clocks need not agree. Then `SendMsg` succeeds and after at
+most 33 rounds of ANY such schedule B's handler has been called exactly once - with the PGN, A's address as source, B's address
+as destination, the length and exactly the payload bytes - A's transfer is over (nothing pending, `StartSendTPMessage` is free
+again) and no frame is left in flight. Polls in between with nothing to receive change nothing (`poll_idle`).
 
-What is missing for the full statement of DESIGN (hence `_partial`): one device per node; each node polls once per exchange
-(A and B strictly alternate); the BAM composition is `C10_end_to_end_bam_partial`. -/
+What is missing for the full statement of DESIGN (hence `_partial`): the acting devices are the nodes' devices with index 0
+(the lemmas are written for that index; the other devices are only required to be idle); A and B poll strictly alternately -
+a schedule with extra polls reduces to these by `poll_idle` only as long as the sender's timer is not due at the extra polls, and
+the reduction (a commutation of idle polls over the exchange, carrying the arming time separately from the clock) is not
+formalised; the BAM composition is `C10_end_to_end_bam_partial`. -/
 theorem C10_end_to_end_partial (a b : Node) (da db : Dev) (m : Msg) (ds : List (Nat × Nat))
-    (hda : a.s.devs = [da]) (hdb : b.s.devs = [db]) (hqa : Quiet a.s 0) (hqb : Quiet b.s 0)
+    (hda : Lead a da) (hdb : Lead b db) (hqa : Quiet a.s 0) (hqb : Quiet b.s 0)
     (haIdle : (a.tp 0).pend.pgn = 0) (haSent : a.s.drv.sent = []) (haRx : a.rxq = [])
     (hbIdle : (b.tp 0).hasPending = false) (hbSent : b.s.drv.sent = []) (hbRx : b.rxq = []) (hbOut : b.out = [])
     (haInfo : InfoIdle a 0) (hbInfo : InfoIdle b 0)
@@ -531,10 +535,8 @@ theorem C10_end_to_end_partial (a b : Node) (da db : Dev) (m : Msg) (ds : List (
       (rounds (ds.take r) ((sendMsgTP a m (some 0)).1, b)).2.s.drv.sent = [] ∧
       (rounds (ds.take r) ((sendMsgTP a m (some 0)).1, b)).1.rxq = [] ∧
       (rounds (ds.take r) ((sendMsgTP a m (some 0)).1, b)).2.rxq = [] := by
-  have hdb251 : db.source ≤ 251 := by
-    obtain ⟨d', hd', hs, _⟩ := hqb.dev
-    rw [hdb] at hd'; simp at hd'; subst hd'; exact hs
-  have hstart := sendMsgTP_start a m da hqa (by rw [hda]; rfl) hlow hp0 hid htp h9 (by omega) haIdle
+  have hdb251 : db.source ≤ 251 := hdb.src hqb
+  have hstart := sendMsgTP_start a m da hqa hda.dev0 hlow hp0 hid htp h9 (by omega) haIdle
   rw [haSent, haRx, List.nil_append] at hstart
   rw [hstart]
   refine ⟨rfl, ?_⟩
@@ -580,27 +582,27 @@ theorem C10_end_to_end_partial (a b : Node) (da db : Dev) (m : Msg) (ds : List (
 
 /-- the hypotheses of `C10_end_to_end_partial` are satisfiable: the example node talks to a copy of itself at address 30 -/
 example : ∃ (a b : Node) (da db : Dev) (m : Msg) (ds : List (Nat × Nat)), 33 ≤ ds.length ∧ (∀ p, ds.head? = some p → p.2 < 50) ∧
-    (∀ p ∈ ds, p.2 < 100) ∧ a.s.now + totalA ds + 100 < M64 ∧ a.s.devs = [da] ∧ b.s.devs = [db] ∧ Quiet a.s 0 ∧ Quiet b.s 0 ∧
+    (∀ p ∈ ds, p.2 < 100) ∧ a.s.now + totalA ds + 100 < M64 ∧ Lead a da ∧ Lead b db ∧ 2 ≤ a.s.devs.length ∧ 2 ≤ b.s.devs.length ∧ Quiet a.s 0 ∧ Quiet b.s 0 ∧
     (a.tp 0).pend.pgn = 0 ∧ a.s.drv.sent = [] ∧ a.rxq = [] ∧ (b.tp 0).hasPending = false ∧ b.s.drv.sent = [] ∧ b.rxq = [] ∧
     b.out = [] ∧ InfoIdle a 0 ∧ InfoIdle b 0 ∧ (∃ sl ∈ b.slots, sl.free = true) ∧ ((checkKnown m.pgn).1 = true ∨ ¬ b.onlyKnown = true) ∧
     m.tp = true ∧ 9 ≤ m.len ∧ m.len ≤ 223 ∧ m.len ≤ m.data.length ∧ m.dst = db.source ∧ m.pgn &&& 0xff = 0 ∧ m.pgn ≠ 0 ∧
     m.pgn < 2^24 ∧ n2kToCanId m.prio m.pgn da.source m.dst ≠ 0 := by
-  refine ⟨exNode, { exNode with s := { exSt with devs := [{ exDev with source := 30 }] } }, exDev, { exDev with source := 30 }, exMsg,
+  refine ⟨exNodeA, exNodeB, exDev, exDevB, exMsg,
     List.replicate 33 (7, 20), by decide, by decide, by decide, by decide,
-    rfl, rfl, exQuiet, ⟨⟨_, rfl, by decide, by decide⟩, rfl, rfl, rfl, rfl, rfl, by decide, by decide⟩, by decide, rfl, rfl,
-    by decide, rfl, rfl, rfl, ⟨rfl, rfl⟩, ⟨rfl, rfl⟩, ⟨{}, by simp [exNode], rfl⟩, by decide, by decide, by decide, by decide, by decide, by decide, by decide,
+    exLeadA, exLeadB, by decide, by decide, exQuietA, exQuietB, by decide, rfl, rfl,
+    by decide, rfl, rfl, rfl, ⟨rfl, rfl⟩, ⟨rfl, rfl⟩, ⟨{}, by simp [exNodeB, exNode], rfl⟩, by decide, by decide, by decide, by decide, by decide, by decide, by decide,
     by decide, by decide, by decide⟩
 
-/-- **End to end (BAM), partial.** Node A (one device) hands a transport-flagged message of 9..223 bytes for the global
-address to `SendMsg`; node B (one device) listens. Both are quiet, A has nothing pending, B has a free receive slot (free slots
+/-- **End to end (BAM), partial.** Node A hands a transport-flagged message of 9..223 bytes for the global address to
+`SendMsg` on its first device; node B listens (both may have further, idle devices: `Lead`). Both are quiet, A has nothing pending, B has a free receive slot (free slots
 carry no CTS obligation - `FreeMessage` and the constructor reset it) and may hold the message. Schedule as in
 `C10_end_to_end_partial`, but A polls at least 51 ms (and less than 2^31 ms) after its previous poll: the pacing of
 `C10_bam_pacing` then lets exactly one data packet out per poll. After at most 33 rounds of ANY such schedule B's handler has
 been called exactly once with the PGN, A's address, destination 255, the length and exactly the payload; A's transfer is over;
 nothing is in flight, and B never sent a frame (`C10_receiver_bam`). Missing for the full statement: as in
-`C10_end_to_end_partial` (one device per node, strictly alternating polls). -/
+`C10_end_to_end_partial` (acting device index 0, strictly alternating polls). -/
 theorem C10_end_to_end_bam_partial (a b : Node) (da db : Dev) (m : Msg) (ds : List (Nat × Nat))
-    (hda : a.s.devs = [da]) (hdb : b.s.devs = [db]) (hqa : Quiet a.s 0) (hqb : Quiet b.s 0)
+    (hda : Lead a da) (hdb : Lead b db) (hqa : Quiet a.s 0) (hqb : Quiet b.s 0)
     (haIdle : (a.tp 0).pend.pgn = 0) (haSent : a.s.drv.sent = []) (haRx : a.rxq = [])
     (hbIdle : (b.tp 0).hasPending = false) (hbSent : b.s.drv.sent = []) (hbRx : b.rxq = []) (hbOut : b.out = [])
     (haInfo : InfoIdle a 0) (hbInfo : InfoIdle b 0)
@@ -620,7 +622,7 @@ theorem C10_end_to_end_bam_partial (a b : Node) (da db : Dev) (m : Msg) (ds : Li
       (rounds (ds.take r) ((sendMsgTP a m (some 0)).1, b)).2.s.drv.sent = [] ∧
       (rounds (ds.take r) ((sendMsgTP a m (some 0)).1, b)).1.rxq = [] ∧
       (rounds (ds.take r) ((sendMsgTP a m (some 0)).1, b)).2.rxq = [] := by
-  have hstart := sendMsgTP_start_bam a m da hqa (by rw [hda]; rfl) hlow hp0 hid htp h9 hdst haIdle
+  have hstart := sendMsgTP_start_bam a m da hqa hda.dev0 hlow hp0 hid htp h9 hdst haIdle
   rw [haSent, haRx, List.nil_append] at hstart
   rw [hstart]
   refine ⟨rfl, ?_⟩
@@ -662,19 +664,19 @@ theorem C10_end_to_end_bam_partial (a b : Node) (da db : Dev) (m : Msg) (ds : Li
   · simp [doneTp]
 
 example : ∃ (a b : Node) (da db : Dev) (m : Msg) (ds : List (Nat × Nat)), 33 ≤ ds.length ∧ (∀ p ∈ ds, 51 ≤ p.2 ∧ p.2 < INT32_MAX) ∧
-    a.s.now + totalA ds + 100 < M64 ∧ a.s.devs = [da] ∧ b.s.devs = [db] ∧ Quiet a.s 0 ∧ Quiet b.s 0 ∧
+    a.s.now + totalA ds + 100 < M64 ∧ Lead a da ∧ Lead b db ∧ 2 ≤ a.s.devs.length ∧ 2 ≤ b.s.devs.length ∧ Quiet a.s 0 ∧ Quiet b.s 0 ∧
     (a.tp 0).pend.pgn = 0 ∧ a.s.drv.sent = [] ∧ a.rxq = [] ∧ (b.tp 0).hasPending = false ∧ b.s.drv.sent = [] ∧ b.rxq = [] ∧
     b.out = [] ∧ InfoIdle a 0 ∧ InfoIdle b 0 ∧ (∃ sl ∈ b.slots, sl.free = true) ∧ (∀ sl ∈ b.slots, sl.free = true → sl.reqCTS = 0) ∧
     ((checkKnown m.pgn).1 = true ∨ ¬ b.onlyKnown = true) ∧
     m.tp = true ∧ 9 ≤ m.len ∧ m.len ≤ 223 ∧ m.len ≤ m.data.length ∧ m.dst = 255 ∧ m.pgn &&& 0xff = 0 ∧ m.pgn ≠ 0 ∧
     m.pgn < 2^24 ∧ n2kToCanId m.prio m.pgn da.source m.dst ≠ 0 := by
-  refine ⟨exNode, { exNode with s := { exSt with devs := [{ exDev with source := 30 }] } }, exDev, { exDev with source := 30 },
+  refine ⟨exNodeA, exNodeB, exDev, exDevB,
     { exMsg with dst := 255 }, List.replicate 33 (7, 60), by decide, by decide, by decide,
-    rfl, rfl, exQuiet, ⟨⟨_, rfl, by decide, by decide⟩, rfl, rfl, rfl, rfl, rfl, by decide, by decide⟩, rfl, rfl,
-    rfl, rfl, rfl, rfl, rfl, ⟨rfl, rfl⟩, ⟨rfl, rfl⟩, ⟨{}, by simp [exNode], rfl⟩, ?_, by decide, by decide, by decide, by decide, by decide, by decide,
+    exLeadA, exLeadB, by decide, by decide, exQuietA, exQuietB, rfl, rfl,
+    rfl, rfl, rfl, rfl, rfl, ⟨rfl, rfl⟩, ⟨rfl, rfl⟩, ⟨{}, by simp [exNodeB, exNode], rfl⟩, ?_, by decide, by decide, by decide, by decide, by decide, by decide,
     by decide, by decide, by decide, by decide⟩
   intro sl hsl _
-  simp [exNode] at hsl
+  simp [exNodeB, exNode] at hsl
   rw [hsl]
 
 end N2k.C10
